@@ -116,6 +116,16 @@ def expect_delivery(eng, ctx, stream, expect, cutsets, label, exact=True):
     return True
 
 
+def long_unfinished_readout(n):
+    """identification line followed by data lines, about n octets, never an end line"""
+    out = list(b"/LGF5E360\r\n")
+    i = 0
+    while len(out) < n:
+        out += list(b"1-0:32.7.0(%06d.%d*V)\r\n" % (i, i % 10))
+        i += 1
+    return out
+
+
 # ------------------------------------------------------------------------------------------------ C16, P1 part
 def c16_noise_path(k):
     def path(eng, ctx):
@@ -136,9 +146,28 @@ def c16_noise_path(k):
     return path
 
 
+def c16_long_path(n_prefix, k):
+    """an unfinished readout of n_prefix octets (first chunk), then ONE chunk holding k free octets and three clean readouts:
+    the buffer guard (8191) is crossed with the fresh chunk in hand; readouts 2 and 3 of the chunk must be delivered"""
+    def path(eng, ctx):
+        prefix = long_unfinished_readout(n_prefix)
+        noise = [sym_octet(f"n{i}") for i in range(k)]
+        lines = [b"1-0:%d.7.0(00.%03d*kW)" % (c, c) for c in (1, 2, 21, 22, 41, 42, 61, 62)] + [b"1-0:32.7.0(231.9*V)", b"1-0:52.7.0(232.9*V)", b"1-0:72.7.0(233.9*V)"]
+        r1 = ref_p1.build_readout(b"/LGF5E360", [b"1-0:1.8.0(000123*kWh)"] + lines)
+        r2 = ref_p1.build_readout(IDENT2, [b"1-0:1.7.0(00.332*kW)"] + lines)
+        r3 = ref_p1.build_readout(b"/LGF5E360", [b"0-0:1.0.0(210101120000W)"] + lines, checksum=False)
+        stream = SBytes(prefix + noise + r1 + r2 + r3)
+        a = len(prefix)
+        expect_delivery(eng, ctx, stream, [r2, r3], [(a,), (a + k,), (a // 2, a)], f"p1 unfinished readout of {a} octets + one chunk", exact=False)
+    return path
+
+
 def c16_scenarios(tier):
     q = tier == "quick"
     k = 3 if q else 5
-    return [Scenario(f"p1 free noise k={k} (+readout-looking prefixes) + 3 readouts", c16_noise_path(k),
+    long_ = [Scenario(f"p1 unfinished readout of ~{n} octets, then one chunk with {2} free octets + 3 readouts", c16_long_path(n, 2),
+                      bounds={"prefix_octets": n, "then": "one chunk: 2 free octets + 3 clean readouts (~300 octets each)", "claim": "readouts 2 and 3 delivered"}, domains=("p1",), frontier=3, workers=4,
+                      assumptions=inject.assumptions(("p1",)), replay_cap=20) for n in ((7900, 8300) if q else (4000, 7900, 8100, 8191, 8300, 12000))]
+    return long_ + [Scenario(f"p1 free noise k={k} (+readout-looking prefixes) + 3 readouts", c16_noise_path(k),
                      bounds={"noise": f"{k} free octets alone | after a truncated readout | before '/ABC'", "suffix": "3 spec readouts (one free digit)", "splittings": "one call, every cut around the noise/readout boundary"},
                      domains=("p1",), frontier=4, assumptions=inject.assumptions(("p1",)), replay_cap=60)]
